@@ -22,6 +22,16 @@
 #include <utility>
 #include <vector>
 
+// ASan keeps the allocation/free stack of every malloc in its StackDepot forever.  The fast unwinder walks through
+// libstdc++ / librapidcheck frames that have no frame pointers, so nearly every one of the ~250 mallocs per case gets a
+// "new" 30-frame stack: measured 2.1 M depot ids / 242 MB after 33 k cases, 2.7 GB per process in the thorough tier and a
+// ~10x slowdown.  Two frames of context and a small quarantine keep a process below ~200 MB (env ASAN_OPTIONS set by
+// bin/check still overrides key by key).  Guarded so that an engine-wide definition can replace it.
+#if !defined(VF_ASAN_DEFAULT_OPTIONS_DEFINED)
+#define VF_ASAN_DEFAULT_OPTIONS_DEFINED 1
+extern "C" __attribute__((used, visibility("default"))) auto __asan_default_options() -> char const* { return "malloc_context_size=2:quarantine_size_mb=32"; }
+#endif
+
 namespace c03 {
 
 using vf::OpsCase;
